@@ -2,7 +2,7 @@
 #![allow(dead_code)]
 
 fn is_safe(c: u8) -> bool {
-    c.is_ascii_alphanumeric() || c == b'_' || c == b'.' || c == b':' || c == b'/' || c == b'*'
+    c.is_ascii_alphanumeric() || c == b'_' || c == b'.' || c == b'/' || c == b'*'
 }
 
 pub fn enc(s: &str) -> String {
